@@ -370,6 +370,15 @@ class CallMixin:
             return ns
         self.unsupported(node, "set(%s)" % v.ty)
 
+    def bi_defaultdict(self, node, st):
+        """defaultdict(int) / defaultdict(float) / defaultdict(list): the declared local type carries the default"""
+        d = VDict(TDict(ANY, ANY), None, None, z3.IntVal(0))
+        d.empty_literal = True
+        return d
+
+    def bi_OrderedDict(self, node, st):
+        return self.bi_dict(node, st)
+
     def bi_dict(self, node, st):
         if not node.args:
             d = VDict(TDict(ANY, ANY), None, None, z3.IntVal(0))
@@ -379,8 +388,14 @@ class CallMixin:
 
     def bi_sorted(self, node, st):
         v = self.ev(node.args[0], st)
-        if node.keywords:
-            self.unsupported(node, "sorted with key")
+        reverse = False
+        for kw_ in node.keywords:
+            if kw_.arg == "reverse" and isinstance(kw_.value, ast.Constant):
+                reverse = bool(kw_.value.value)
+            else:
+                self.unsupported(node, "sorted with key")
+        if isinstance(v, VDict) and not getattr(v, "empty_literal", False):
+            v = VSet(v.kty, v.m, v.c)
         if isinstance(v, VSet) and not getattr(v, "empty_literal", False):
             # sorted(a_set): strictly ascending list of exactly the members (position function as witness)
             r = fresh(TList(v.kty), "sorted")
@@ -389,7 +404,8 @@ class CallMixin:
             k = z3.Const(fresh_name("so_k"), sort_of(v.kty))
             pos = z3.Function(fresh_name("sorted_pos"), sort_of(v.kty), z3.IntSort())
             st.assume(r.n == v.c)
-            st.assume(z3.ForAll([i, j], z3.Implies(z3.And(0 <= i, i < j, j < r.n), lex_lt(r.get(i), r.get(j), True))))
+            st.assume(z3.ForAll([i, j], z3.Implies(z3.And(0 <= i, i < j, j < r.n),
+                                                   lex_lt(r.get(j), r.get(i), True) if reverse else lex_lt(r.get(i), r.get(j), True))))
             st.assume(z3.ForAll([i], z3.Implies(z3.And(0 <= i, i < r.n),
                                                 z3.And(z3.Select(v.m, z3.Select(r.a, i)), pos(z3.Select(r.a, i)) == i))))
             st.assume(z3.ForAll([k], z3.Implies(z3.Select(v.m, k),
@@ -398,6 +414,8 @@ class CallMixin:
             return r
         if not isinstance(v, VList):
             self.unsupported(node, "sorted of %s" % v.ty)
+        if reverse:
+            self.unsupported(node, "sorted(list, reverse=True)")
         r = fresh(v.ty, "sorted")
         i = z3.Int(fresh_name("so_i"))
         j = z3.Int(fresh_name("so_j"))
@@ -495,6 +513,14 @@ class CallMixin:
                 if c is not None:
                     args, kw = self.args_of(node, st)
                     return self.call_user(c, args, kw, node, st, None)
+        if attr == "__new__" and isinstance(f.value, ast.Name):
+            # cls.__new__(cls): a fresh object of the class the contract declares as the result's shape (no field set yet)
+            rt = T.parse_type(self.contract_stack[-1].returns) if self.contract_stack[-1].returns else None
+            if isinstance(rt, TOpt):
+                rt = rt.inner
+            if not isinstance(rt, TRec):
+                self.unsupported(node, "__new__ needs a record return type in the contract")
+            return zero_value(rt)
         recv = self.ev(f.value, st)
         if isinstance(recv, VOpt):
             self.oblige(st, "safety", node, z3.Not(recv.isnone), "method call on None")
